@@ -378,8 +378,11 @@ def main_check(prop, tier, seed, collect=False):
         "wall_s": round(time.time() - t0, 2),
         "violations": len(violations) + sum(1 for l in lines if "regress/" in l),
     }
-    os.makedirs(os.path.join(ROOT, "evidence"), exist_ok=True)
-    with open(os.path.join(ROOT, "evidence", f"{prop}.json"), "w") as fh:
+    # evidence/ only ever describes runs against /repo itself; a run pointed at another tree (VF_REPO, used by the
+    # sensitivity tools) writes its summary elsewhere
+    evdir = "evidence" if os.path.realpath(os.environ.get("VF_REPO", "/repo")) == "/repo" else ".evidence_other_tree"
+    os.makedirs(os.path.join(ROOT, evdir), exist_ok=True)
+    with open(os.path.join(ROOT, evdir, f"{prop}.json"), "w") as fh:
         json.dump(evidence, fh, indent=1, sort_keys=True, default=str)
 
     for l in known_lines:
